@@ -70,6 +70,8 @@ structure Side where
   openRx : List Nat := []
   maxPorts : Nat := 0
   allocFree : Option Nat := none
+  /-- `outstanding` of the model at the last quiescent point -/
+  outAtSettle : List Nat := []
 
 structure CSim where
   name : String := ""
@@ -164,6 +166,16 @@ def CSim.onTxMsg (s : CSim) (line : Nat) (x : String) (m : Msg) : CSim :=
       let s := if sd.open_.any (·.num == sp) then s.fail "c07" line s!"side {x} assigns server port {sp} which is still open" else s
       let sd := { sd with open_ := sd.open_ ++ [({ num := sp, peer := some cp, connecting := false } : WPort)] }
       let s := if sd.open_.length > sd.maxPorts then s.fail "c07" line s!"side {x} has {sd.open_.length} ports open on the wire, max_ports is {sd.maxPorts}" else s
+      (s, sd)
+    | .goodbye =>
+      -- enabling condition of the internal label `goodbye` of the system model (`should_terminate`), in the
+      -- form that is stable under frames delivered between the dispatcher's decision and this line
+      let e := sd.ep
+      let ok := e.goodbyeReceived || (e.ports.isEmpty && (e.allClientsDropped || e.remoteListenerDropped) &&
+                  (e.listenerDropped || e.remoteClientDropped) && (e.outstanding.filter (sd.outAtSettle.contains ·)).isEmpty)
+      let s := if !ok && s.replayOk && s.stalled.isEmpty then
+          s.fail "c07" line s!"side {x} sent Goodbye although its dispatcher must keep running: {e.ports.length} port(s) in its table, {(e.outstanding.filter (sd.outAtSettle.contains ·)).length} request(s) of the peer unanswered since the last quiescent point, clients dropped={e.allClientsDropped} listener dropped={e.listenerDropped}"
+        else s
       (s, sd)
     | .sendFinish rp =>
       (s, { sd with open_ := pruneDone (sd.open_.map (fun (p : WPort) => if p.peer == some rp && !p.sf then { p with sf := true } else p)) })
@@ -436,6 +448,7 @@ def stepLine (a : CAcc) (n : Nat) (line : String) : IO CAcc := do
       return { a with sim := { s with stalled := if v == "inf" then st else st ++ [key] } }
     else return { a with sim := s }
   | "settled" :: _ =>
+    let s := { s with a := { s.a with outAtSettle := s.a.ep.outstanding }, b := { s.b with outAtSettle := s.b.ep.outstanding } }
     if s.teardown || !s.stalled.isEmpty then return { a with sim := s } else
     let chk := fun (s : CSim) (x : String) =>
       match (s.side x).run, (s.side x).expectTx with
